@@ -91,7 +91,8 @@ def combine (cls : List (Cls × Rat)) : Expect :=
     | first :: rest =>
       let best := rest.foldl (fun (b : Rat × Rat × Rat) (v : Rat × Rat × Rat) => if v.1 > b.1 then v else b) first
       let close := vis.filter fun v => v.1 ≠ best.1 && (best.1 - v.1) < best.1 / 1000
-      let ties := vis.filter fun v => v.1 == best.1
-      if !close.isEmpty || ties.length > 1 then .skip else .value best.1 best.2.1 best.2.2
+      -- exact ties are harmless when they carry the same attribute (the same triangle submitted twice)
+      let ties := vis.filter fun v => v.1 == best.1 && v.2.1 != best.2.1
+      if !close.isEmpty || !ties.isEmpty then .skip else .value best.1 best.2.1 best.2.2
 
 end Retro.Spec.Ideal
